@@ -92,6 +92,15 @@ JOIN_SQL = [
     "SELECT s1.a, count(*), sum(s2.b) FROM A s1 INNER JOIN B s2 ON s1.a = s2.a GROUP BY s1.a",
     "SELECT * FROM A s1 LEFT JOIN B s2 ON s1.a = s2.a ORDER BY 1, 2, 3, 4",
     "SELECT * FROM A s1 INNER JOIN (SELECT a FROM B WHERE 1 = 0) s2 ON s1.a = s2.a",
+    "SELECT a, count(*), sum(b), count(DISTINCT b) FROM A GROUP BY a",
+    "SELECT count(DISTINCT a), sum(b) FROM A",
+    "SELECT * FROM A ORDER BY a, b LIMIT 3",
+    "SELECT * FROM A s1 INNER JOIN B s2 ON s1.a < s2.a",
+    "SELECT * FROM A s1 LEFT JOIN B s2 ON s1.a < s2.a AND s1.b = 1",
+    "WITH x AS (SELECT a, b FROM A WHERE b > 0) SELECT * FROM x UNION ALL SELECT * FROM x",
+    "SELECT a FROM A UNION SELECT a FROM B",
+    "CREATE TEMP TABLE IF NOT EXISTS ctas_t AS SELECT a, b FROM A",
+    "INSERT INTO A SELECT a, b FROM B",
 ]
 
 
@@ -116,7 +125,7 @@ def threaded_family(rep, tier, rng):
         cases.append({"id": i, "rt": {"kind": "threaded", "threads": rng.choice([1, 2, 4, 16])}, "events": True,
                       "knobs": {"table_chunk_capacity": 4}, "steps": steps, "timeout": 60})
     res = vlib.Driver(nworkers=6, case_timeout=60).run(cases)
-    task_traces, hj_lines, nstmts = [], [], 0
+    task_traces, hj_lines, nstmts, all_events = [], [], 0, []
     for c, r in zip(cases, res):
         rep.cov["evaluations"] += 1
         if r is None or "steps" not in r:
@@ -139,13 +148,18 @@ def threaded_family(rep, tier, rng):
             task_traces.append(t)
             nstmts += len(r["steps"])
         hj_lines += conc.hashjoin_traces(r.get("events", []), failed_stmts)
+        all_events.append(r.get("events", []))
     mm = conc.validate(rep, "TraceTask", conc.join_task_traces(task_traces), "C04-tv-task", "thread-pool task events")
     for m in mm:
         rep.mismatch({"family": "task-trace", "what": m.get("what"), "ev": m.get("ev")}, m)
     mm = conc.validate(rep, "TraceHashJoin", hj_lines, "C04-tv-hj", "hash join protocol events")
     for m in mm:
         rep.mismatch({"family": "hashjoin-trace", "what": m.get("what"), "ev": m.get("ev"), "lab": m.get("lab")}, m)
-    rep.cov["families"]["threaded"] = {"sessions": len(cases), "statements_with_task_events": nstmts,
+    plines = conc.generic_primitive_lines(all_events)
+    mm = conc.validate(rep, "TracePrims", plines, "C04-tv-prims", "waker/count primitives of all operators")
+    for m in mm:
+        rep.mismatch({"family": "prims-trace", "what": m.get("what"), "ev": m.get("ev")}, m)
+    rep.cov["families"]["threaded"] = {"sessions": len(cases), "primitive_events": len(plines), "statements_with_task_events": nstmts,
                                       "hash_join_events": len(hj_lines)}
     if not hj_lines or not task_traces:
         rep.tool_error("vacuity: no hook events recorded (are the cfg(glaredb_verif) hooks compiled in?)")
